@@ -8,7 +8,7 @@ WT=/tmp/wt/confirm-$NAME
 git -C /repo worktree remove --force $WT >/dev/null 2>&1; rm -rf $WT
 git -C /repo worktree add -q --detach $WT HEAD || exit 2
 PLACE=$(python3 -c "import json;print(json.load(open('$SRC/meta.json'))['demo']['place_at'])")
-RUN=$(python3 -c "import json;print(json.load(open('$SRC/meta.json'))['demo']['run'])")
+RUN=$(python3 -c "import json,re;print(re.sub(r'^cd /tmp/wt/\S+ && ','',json.load(open('$SRC/meta.json'))['demo']['run']))")
 cp "$SRC/demo_test.go.txt" "$WT/$PLACE"
 cd $WT
 echo "--- demo on unmodified tree: $RUN"
